@@ -114,10 +114,19 @@ def gen_io_workload(rng, inexpressible=None):
                           "information": fxm(simio.spd_information(rng, 3, cross).tolist()),
                           "offset": graphs.pose_to_spec(par3[pid]), "offset_id": pid})
     for e in edges:
+        if rng.random() < 0.15:
+            # information of any magnitude: the whole matrix scaled far down or up (entries 1e-300 .. 1e300)
+            sc = 10.0 ** rng.choice([-290, -200, -100, -20, -12, -10, -9, 9, 20, 100, 200])
+            m = np.array([[float.fromhex(v) for v in row] for row in e["information"]]) * sc
+            if np.all(np.isfinite(m)) and np.any(m != 0):
+                e["information"] = fxm(m.tolist())
+                meta["scaled_information"] = True
+    for e in edges:
         r = rng.random()
         if r < 0.08:
             # an information matrix held in single precision (e.g. loaded from a float32 sensor log)
-            m = np.array([[float(np.float32(float.fromhex(v))) for v in row] for row in e["information"]])
+            with np.errstate(all="ignore"):
+                m = np.array([[float(np.float32(float.fromhex(v))) for v in row] for row in e["information"]])
             if np.all(np.isfinite(m)):
                 e["information"] = fxm(m.tolist())
                 e["info_dtype"] = "float32"
@@ -230,7 +239,7 @@ class C13(OptEngineBase):
     PROBES = [
         "w_negative_vertex", "w_negative_measurement", "cross_terms", "huge_magnitude", "tiny_magnitude", "neg_id", "big_id",
         "crlf_platform", "enospc_fired", "error_at_close_fired", "short_write_fired", "short_read_split_crlf", "inexpressible_refused",
-        "cycle_ge_3", "mutated_between_exports", "float32_information", "legacy_print_mode", "export_raised", "import_raised", "export_again_checked", "angle_pi_stored", "params_table", "chi2_nonfinite",
+        "cycle_ge_3", "mutated_between_exports", "float32_information", "legacy_print_mode", "import_check_of_earlier_file", "scaled_information", "export_raised", "import_raised", "export_again_checked", "angle_pi_stored", "params_table", "chi2_nonfinite",
     ]
 
     def generate(self, rng, tier, index):
@@ -252,9 +261,13 @@ class C13(OptEngineBase):
                 if rng.random() < 0.3:
                     # the same object is exported, changed by its owner, and exported again
                     ops.append({"op": "export", "path": rng.choice(paths)})
+                    first_path = ops[-1]["path"]
                     for _ in range(rng.randint(1, 2)):
-                        ops.append({"op": "mutate", "what": rng.choice(["information", "estimate", "vertex", "param", "raw_heading"]), "k": rng.randrange(1000),
+                        ops.append({"op": "mutate", "what": rng.choice(["information", "estimate", "vertex", "param", "raw_heading", "offset_inplace"]), "k": rng.randrange(1000),
                                     "scale": rng.choice([2.0, 0.5, 3.0, 1.0 + 2.0 ** -40])})
+                    if rng.random() < 0.6:
+                        # the file written before the change must still load to what it was written from
+                        ops.append({"op": "import_check", "path": first_path})
                 ops.append({"op": "export", "path": cur})
                 if rng.random() < 0.1:
                     ops[-1]["pathlib"] = True
@@ -326,6 +339,7 @@ class C13(OptEngineBase):
             cycles_since_origin = 0
             n_cycles = 0
             inexp = meta.get("inexpressible")
+            poisoned = False  # the owner edited an offset in place: the graph may have become inexpressible
             for i, op in enumerate(ops):
                 w.begin_op(i)
                 kind = op["op"]
@@ -362,6 +376,15 @@ class C13(OptEngineBase):
                         vals[1] = vals[1] * sc - 0.125
                         v.pose = graphs.make_pose(spec["t"], vals)
                         done = True
+                    elif what == "offset_inplace":
+                        # the owner edits the offset of one landmark edge in place (for a 2-D edge this makes the graph
+                        # inexpressible; for a 3-D edge the parameter table shares the object after an import)
+                        lm = [e for e in g._edges if getattr(e, "offset", None) is not None]
+                        if lm:
+                            e = lm[op["k"] % len(lm)]
+                            e.offset[0] = float(e.offset[0]) * sc + 0.5
+                            done = True
+                            poisoned = True
                     elif what == "raw_heading":
                         # the owner writes a heading in place (an in-range double the constructor's wrap need not produce)
                         se2 = [v for v in g._vertices if graphs.type_name(v.pose) == "SE2"]
@@ -390,6 +413,38 @@ class C13(OptEngineBase):
                     cycles_since_origin = 0
                     sig_ops.append("mutate:" + what if done else "mutate:skip")
                     log.note("mutate", [what, done])
+                    continue
+                if kind == "import_check":
+                    # re-read a file whose export was acknowledged earlier; the current graph is not replaced
+                    if op["path"] not in acked:
+                        sig_ops.append("import_check_skipped")
+                        continue
+                    fired_before = len(w.plan.fired)
+                    raised = None
+                    g3 = None
+                    try:
+                        g3 = Graph.from_g2o(op["path"])
+                    except Exception as e:  # noqa
+                        raised = e
+                    fired_kinds = {f["kind"] for f in w.plan.fired[fired_before:]}
+                    sig_ops.append("import_check:" + ("raised" if raised is not None else "ok"))
+                    log.note("import_check", type(raised).__name__ if raised is not None else "ok")
+                    if dry:
+                        continue
+                    res.probe("import_check_of_earlier_file")
+                    if raised is not None:
+                        if "eio_read" in fired_kinds and isinstance(raised, OSError):
+                            continue
+                        res.violate("C13:import-raised", "op %d re-import of an acknowledged export raised %s: %s" % (i, type(raised).__name__, raised))
+                        break
+                    if "eio_read" in fired_kinds:
+                        res.violate("C13:read-fault-swallowed", "op %d from_g2o returned a graph although a read of the device failed with EIO" % i)
+                        break
+                    m = self._compare(acked[op["path"]], g3, None, 1, res)
+                    if m is not None:
+                        res.violate("C13:lossy:" + m[0], "op %d re-import of %s (written before the graph was changed): %s" % (i, op["path"], m[1]))
+                        break
+                    compared += 1
                     continue
                 if kind in ("export", "export_again"):
                     before = graphs.spec_of_graph(g)
@@ -424,7 +479,7 @@ class C13(OptEngineBase):
                                 res.violate("C13:export-raised-without-fault", "op %d to_g2o raised %r although no hard device fault fired (benign faults: %s)"
                                             % (i, raised, sorted(fired_kinds)))
                                 break
-                        elif inexp and isinstance(raised, (NotImplementedError, ValueError, KeyError, TypeError, AssertionError)):
+                        elif (inexp or poisoned) and isinstance(raised, (NotImplementedError, ValueError, KeyError, TypeError, AssertionError)):
                             res.probe("inexpressible_refused")
                         else:
                             res.violate("C13:export-raised", "op %d to_g2o raised %s: %s on content the format can express" % (i, type(raised).__name__, raised))
@@ -505,6 +560,7 @@ class C13(OptEngineBase):
                         break
                     compared += 1
                     g = g2
+                    poisoned = False
                     continue
                 raise ValueError("unknown op %r" % kind)
             if dry:
@@ -579,6 +635,8 @@ class C13(OptEngineBase):
             res.probe("crlf_platform")
         if meta.get("float32_information"):
             res.probe("float32_information")
+        if meta.get("scaled_information"):
+            res.probe("scaled_information")
         if (case.get("config") or {}).get("numpy_print", {}).get("kind") == "legacy113":
             res.probe("legacy_print_mode")
         if meta.get("magnitude") == "huge":
